@@ -212,6 +212,13 @@ REGRESSION = [
      'inter': [{'k': 'st', 'side': 's', 'req': [3, 0],
                 'src': {'kind': 'manual', 'els': [[200, 10]], 'end': 'sep'}, 'sub': {'n0': gen.MAXN}}],
      'ops': [['start'], ['tick', 3], ['block', 'c'], ['emit', 0, 'resp', 1], ['end', 0, 'resp'], ['unblock', 'c'], ['tick', 2]]},
+    # one element larger than a single frame can be (2^24 - 1 bytes): only fragmentation can carry it, and the receiver has to
+    # put all of it together again (a fixed point; sizes of this order are not searched)
+    {'cfg': {'msg': False, 'frag': [1000000, 1000000], 'rbuf': [65536, 65536]},
+     'inter': [{'k': 'st', 'side': 'c', 'req': [3, 0], 'src': {'kind': 'manual', 'els': [[18000000 + 4000, 10]], 'end': 'sep'},
+                'sub': {'n0': gen.MAXN}},
+               {'k': 'rr', 'side': 's', 'req': [18500000 + 70000, 0], 'resp': {'mode': 'now', 'p': [5, 0]}}],
+     'ops': [['start'], ['tick', 3], ['emit', 0, 'resp', 1], ['start'], ['tick', 4]]},
 ]
 
 
